@@ -279,4 +279,20 @@ IsLightlike(v, tol) == LET s1 == QSign(QSub(Tau2(v), tol))
                            s2 == QSign(QAdd(Tau2(v), tol))
                        IN  IF s1 < 0 /\ s2 > 0 THEN TT
                            ELSE IF s1 > 0 \/ s2 < 0 THEN FF ELSE "either"
+
+\* ---- proper-time storage given directly (the user's tau need not come from a real t):
+\* a = <<x, y, z, tau>> with tau ANY rational.  The documented conventions: tau2 is the signed square of
+\* tau (negative tau = spacelike), t2 = max(tau2 + mag2, 0) and t = sqrt(t2) are non-negative and never NaN,
+\* and the causal class follows the sign of t^2 - mag^2 for that t.
+RawTau2(a)  == QMul(a[4], QAbs(a[4]))
+RawT2(a)    == QMax(QAdd(RawTau2(a), Mag2(<<a[1], a[2], a[3]>>)), Zero)
+RawT(a)     == Sqrt(RawT2(a))
+\* the class follows the sign of t^2 - mag^2 with the t the vector really has (the clamped one)
+RawNorm2(a) == QSub(RawT2(a), Mag2(<<a[1], a[2], a[3]>>))
+RawIsTimelike(a, tol)  == Tri(QSign(QSub(RawNorm2(a), tol)), TRUE)
+RawIsSpacelike(a, tol) == Tri(QSign(QAdd(RawNorm2(a), tol)), FALSE)
+RawIsLightlike(a, tol) == LET s1 == QSign(QSub(RawNorm2(a), tol))
+                              s2 == QSign(QAdd(RawNorm2(a), tol))
+                          IN  IF s1 < 0 /\ s2 > 0 THEN TT
+                              ELSE IF s1 > 0 \/ s2 < 0 THEN FF ELSE "either"
 =============================================================================
